@@ -28,6 +28,40 @@ type loadGraph struct {
 	np, nh int
 	loads  [][]int
 	desc   string
+	// sharedCache: the first helper that two or more packages load directly also exports a Cache and a flag converter
+	// that uses it; those packages declare a flag converted by it (and set on the command line) and another flag from
+	// inside a once() callback of the same cache - user code running inside parse_flag and inside once at the same time
+	sharedCache bool
+}
+
+// cacheHelper returns the index of the helper that carries the shared cache (-1 = none) and the packages using it.
+func (g *loadGraph) cacheHelper() (int, []int) {
+	if !g.sharedCache {
+		return -1, nil
+	}
+	for h := g.np; h < g.n(); h++ {
+		var users []int
+		for p := 0; p < g.np; p++ {
+			if containsInt(g.loads[p], h) {
+				users = append(users, p)
+			}
+		}
+		if len(users) >= 2 {
+			return h, users
+		}
+	}
+	return -1, nil
+}
+
+// args are the command-line flags of the project.
+func (g *loadGraph) args() []string {
+	_, users := g.cacheHelper()
+	// (dawn parses the whole command line once per declared flag and rejects what that one flag set does not know, so a
+	// project can take a flag on the command line only if it declares a single flag: these graphs declare just "lvl")
+	if len(users) == 0 {
+		return nil
+	}
+	return []string{fmt.Sprintf("--p%d.lvl=3", users[0])}
 }
 
 func (g *loadGraph) n() int { return g.np + g.nh }
@@ -77,15 +111,38 @@ func (g *loadGraph) write(root string) {
 	for i := 0; i < g.n(); i++ {
 		var b strings.Builder
 		fmt.Fprintf(&b, "v.tick(%q)\n", g.moduleLabel(i))
+		ch, users := g.cacheHelper()
 		for k, d := range g.loads[i] {
 			fmt.Fprintf(&b, "v.pause(%q)\n", fmt.Sprintf("%s/before-load-%d", g.label(i), k))
-			fmt.Fprintf(&b, "load(%q, %s_%d = %q)\n", g.label(d), "L", k, g.sym(d))
+			if d == ch && containsInt(users, i) {
+				fmt.Fprintf(&b, "load(%q, %s_%d = %q, \"SHARED\", \"conv\")\n", g.label(d), "L", k, g.sym(d))
+			} else {
+				fmt.Fprintf(&b, "load(%q, %s_%d = %q)\n", g.label(d), "L", k, g.sym(d))
+			}
 		}
 		fmt.Fprintf(&b, "v.pause(%q)\n", g.label(i)+"/after-loads")
 		fmt.Fprintf(&b, "%s = %d\n", g.sym(i), i)
+		if i == ch {
+			b.WriteString("SHARED = Cache()\ndef conv(s):\n    v.pause(\"conv\")\n    return SHARED.once(\"conv:\" + s, lambda: int(s))\n")
+		}
+		if containsInt(users, i) {
+			fmt.Fprintf(&b, "v.pause(%q)\n", g.label(i)+"/before-flags")
+			if i == users[0] {
+				// the project's only flag: its value goes through the converter, which uses the shared cache
+				fmt.Fprintf(&b, "LV = parse_flag(\"lvl\", type=conv, default=1)\n")
+			} else {
+				// a target declared from inside a once() callback of the shared cache
+				fmt.Fprintf(&b, "def x%d(self):\n    pass\n", i)
+				fmt.Fprintf(&b, "IN = SHARED.once(\"decl%d\", lambda: [v.pause(\"decl\"), target(name=\"x%d\", function=x%d)][0])\n", i, i, i)
+			}
+		}
 		var path string
 		if i < g.np {
-			fmt.Fprintf(&b, "F = parse_flag(%q, default=\"d\")\n", fmt.Sprintf("flag%d", i))
+			if ch >= 0 {
+				b.WriteString("F = \"d\"\n")
+			} else {
+				fmt.Fprintf(&b, "F = parse_flag(%q, default=\"d\")\n", fmt.Sprintf("flag%d", i))
+			}
 			fmt.Fprintf(&b, "def t%d(self):\n    v.body(\"//p%d:t%d\", [%s, F], [], \"\")\ntarget(name=\"t%d\", function=t%d)\n", i, i, i, g.sym(i), i, i)
 			path = filepath.Join(root, fmt.Sprintf("p%d", i), "BUILD.dawn")
 		} else {
@@ -126,6 +183,13 @@ func loadGraphFor(seed int64, id string) *loadGraph {
 			for k := 0; k < 6; k++ {
 				g.loads[2+k] = []int{2 + (k+1)%6}
 			}
+		case "shared-cache-and-flag-converter": // p0..p3 -> h0 (cache + converter) -> h1
+			mk(4, 2)
+			for p := 0; p < 4; p++ {
+				g.loads[p] = []int{4}
+			}
+			g.loads[4] = []int{5}
+			g.sharedCache = true
 		case "diamond-chain": // acyclic, deep sharing
 			mk(4, 6)
 			for p := 0; p < 4; p++ {
@@ -172,7 +236,8 @@ func loadGraphFor(seed int64, id string) *loadGraph {
 			}
 		}
 	}
-	g.desc = fmt.Sprintf("random np=%d nh=%d", g.np, g.nh)
+	g.sharedCache = !cyc && r.IntN(4) == 0
+	g.desc = fmt.Sprintf("random np=%d nh=%d shared-cache=%v", g.np, g.nh, g.sharedCache)
 	return g
 }
 
@@ -227,7 +292,7 @@ func c06Case(c *core.Ctx, id string) {
 		}
 	}
 	pj.ResetTicks(s.Root)
-	res := pj.Build(pj.BuildReq{Root: s.Root})
+	res := pj.Build(pj.BuildReq{Root: s.Root, Args: g.args()})
 	reach, cyclic := g.reach()
 	ticks := pj.TicksFor(s.Root)
 	viol := func(sym string, w map[string]any) {
@@ -265,9 +330,19 @@ func c06Case(c *core.Ctx, id string) {
 			viol("acyclic-load-graph-fails-to-load", map[string]any{})
 		} else {
 			var wantT, wantF []string
+			_, users := g.cacheHelper()
 			for i := 0; i < g.np; i++ {
 				wantT = append(wantT, fmt.Sprintf("//p%d:t%d", i, i))
-				wantF = append(wantF, fmt.Sprintf("p%d.flag%d=\"d\"", i, i))
+				if len(users) == 0 {
+					wantF = append(wantF, fmt.Sprintf("p%d.flag%d=\"d\"", i, i))
+				}
+			}
+			if len(users) > 0 {
+				wantF = append(wantF, fmt.Sprintf("p%d.lvl=3", users[0]))
+				for _, i := range users[1:] {
+					wantT = append(wantT, fmt.Sprintf("//p%d:x%d", i, i))
+				}
+				c.Count("load_graphs_with_a_shared_cache_and_flag_converter", 1)
 			}
 			sort.Strings(wantT)
 			sort.Strings(wantF)
@@ -286,7 +361,7 @@ func c06Case(c *core.Ctx, id string) {
 	// Reload() of a loaded project is a load too: each reachable module executes exactly once more, same targets and flags
 	if !cyclic && res.LoadErr == "" && !rendezvous {
 		lv := &pj.Live{}
-		lv.Build(pj.BuildReq{Root: s.Root})
+		lv.Build(pj.BuildReq{Root: s.Root, Args: g.args()})
 		for round := 0; round < 2; round++ {
 			if round == 1 {
 				// a same-length edit of one module between two reloads (within the same second, as an editor's save
@@ -294,13 +369,13 @@ func c06Case(c *core.Ctx, id string) {
 				bf := filepath.Join(s.Root, "p0", "BUILD.dawn")
 				if b, err := os.ReadFile(bf); err == nil {
 					os.WriteFile(bf, []byte(strings.Replace(string(b), "default=\"d\"", "default=\"e\"", 1)), 0o644)
-					fresh := pj.Build(pj.BuildReq{Root: s.Root})
+					fresh := pj.Build(pj.BuildReq{Root: s.Root, Args: g.args()})
 					res.Targets, res.Flags = fresh.Targets, fresh.Flags
 					c.Count("reloads_after_a_same_length_edit", 1)
 				}
 			}
 			pj.ResetTicks(s.Root)
-			r2 := lv.Build(pj.BuildReq{Root: s.Root})
+			r2 := lv.Build(pj.BuildReq{Root: s.Root, Args: g.args()})
 			t2 := pj.TicksFor(s.Root)
 			c.Count("reloads_of_a_loaded_project", 1)
 			if r2.LoadErr != "" {
@@ -352,7 +427,7 @@ func runC06(c *core.Ctx) {
 		"(Go runtime deadlock detector) and -race children; oracle: v.tick counters + ModuleLoading events (at most once), expected target/flag sets for acyclic graphs, " +
 		"'cyclic dependency' error for cyclic ones, cyclicity by independent DFS; non-trivial = some helper module is reachable; distinct = distinct (graph, schedule, event count)")
 	var ids []string
-	for _, nm := range []string{"three-cycle", "shared-helper-loading-another", "self-load", "two-cycle", "package-two-cycle", "six-cycle", "diamond-chain"} {
+	for _, nm := range []string{"three-cycle", "shared-helper-loading-another", "self-load", "two-cycle", "package-two-cycle", "six-cycle", "diamond-chain", "shared-cache-and-flag-converter"} {
 		reps := c.N(12, 100)
 		if nm == "package-two-cycle" || nm == "two-cycle" || nm == "three-cycle" {
 			reps = c.N(300, 3000) // cycle detection races with the publication of wait edges
